@@ -264,7 +264,7 @@ def explains(broken_item, found):
              (("key", "subset", "sderivs", "build", "visit", "rounds", "sort_code", "flowderiv"), ("keys", "subset", "mixed")),
              (("st_", "st2_", "fd1", "stencil", "gen_fd", "gen_fcb", "gen_avg", "affine", "quadratic", "smooth", "dstep", "sobel", "sderiv",
                "image.py", "translator unit", "correspondence"),
-              ("affine", "second-derivative", "boundary", "jacobian_matrix", "raises", "subset", "jacobian_det", "divergence", "curl", "lie_bracket"))]
+              ("affine", "second-derivative", "boundary", "reference", "jacobian_matrix", "raises", "subset", "jacobian_det", "divergence", "curl", "lie_bracket"))]
     for bs, ks in table:
         if any(x in b for x in bs):
             return any(x in keys for x in ks)
@@ -286,7 +286,7 @@ MANIFEST_ENTRY = {
             "division by the spacing included) return the slope of f(i) = a i h + b exactly at all points the scheme supports "
             "(all but the padded end(s); all points for forward_central_backward) for every length and spacing h <> 0, and 0 resp. a/2 "
             "at the padded ends; repeated differences return 2a on quadratics at interior points (margin 2); the prewitt/sobel smoothing "
-            "kernels reproduce affine data away from the zero padding and lose mass (2/3, 3/4) at it; in 2-D the composed operator "
+            "kernels reproduce affine data away from the zero padding and lose mass (2/3, 3/4) at it; in 2-D and 3-D the composed operator "
             "(smooth other axes, difference along the axis) is exact on affine fields at those points for all shapes; the traced 2-D / 3-D "
             "determinant (with and without identity), divergence, curl and Lie-bracket formulas equal det(J), det(J+I), trace, the rotation "
             "vector and Jv u - Ju v; the table-building loop over derivative keys gives every requested key the derivative along its "
@@ -295,8 +295,7 @@ MANIFEST_ENTRY = {
             "2-D / 3-D data, that spatial_derivatives equals the modelled composition for all six modes, keys up to order 2 and all "
             "spacing forms, and that flow_derivatives' values do not depend on the other requested keys; the executable model is compared "
             "inside Coq with the implementation on generated inputs.",
-    "note": "Partial: the N-D theorem is stated for D = 2 (3-D composition is tied by the translator's symbolic check and the "
-            "correspondence); key strings are parsed by regular expressions outside the model (validated by the translator's checks and the "
+    "note": "Partial: key strings are parsed by regular expressions outside the model (validated by the translator's checks and the "
             "exploration); B-spline mode is proved in C14. Known findings: prewitt / sobel are not exact at boundary points of the other axes "
-            "(zero-padded smoothing); mode='bspline' drops requested unsorted mixed keys.",
+            "(zero-padded smoothing; the faithful model proves C12_every_grid_point_refuted and the exact-in-the-interior theorems).",
 }
